@@ -1,4 +1,5 @@
 """C18 — detect_schema() and diff_jobs() are exact summaries of the state points."""
+import copy
 import itertools
 
 from hypothesis import strategies as st
@@ -27,7 +28,7 @@ RULE = (
 CLASSES = [
     "int_float_same_key", "bool_int_same_key", "neg_zero", "list_values", "partial_key",
     "scalar_vs_mapping", "empty_mapping_leaf", "subset_ids", "subset_jobs", "subset_unknown_id",
-    "exclude_const_hit", "diff_0", "diff_1", "diff_many", "zero_jobs", "one_job", "removed_after_warm_up", "caller_modified_statepoint_copy",
+    "exclude_const_hit", "diff_0", "diff_1", "diff_many", "zero_jobs", "one_job", "removed_after_warm_up", "caller_modified_statepoint_copy", "rekeyed_then_original_recreated", "caller_reused_open_job_mapping",
 ]
 ASSUMPTIONS = [
     "schema values are grouped by exact Python type (bool, int, float, str, tuple for lists, NoneType)",
@@ -79,6 +80,9 @@ def cases(draw):
         "removed": draw(st.lists(st.integers(0, 8), max_size=2)) if draw(st.integers(0, 3)) == 0 else [],
         "scribble": draw(st.booleans()),
         "diffs": diffs,
+        "rekey": draw(st.integers(0, 8)) if draw(st.integers(0, 3)) == 0 else None,
+        "rekey_via": draw(st.sampled_from(["sp", "update"])),
+        "by_sp": draw(st.integers(0, 2)) == 0,
     }
 
 
@@ -214,6 +218,32 @@ def run_case(case, ctx):
 
     # ---- detect_schema ------------------------------------------------------
     project = signac.Project(d)
+    rk = case.get("rekey")
+    if n and isinstance(rk, int) and not isinstance(rk, bool):
+        # history on the Project object that answers below: one job's state point is changed in place through it;
+        # afterwards a job with the ORIGINAL state point is created again through another handle (a restore, a
+        # second session): both jobs exist, under their own ids
+        i = rk % n
+        new_sp = dict(copy.deepcopy(uniq[i]), rk=1)
+        if "rk" not in uniq[i] and oracle.job_id(new_sp) not in ids:
+            cl.add("rekeyed_then_original_recreated")
+            try:
+                j = project.open_job(id=ids[i])
+                if case.get("rekey_via") == "update":
+                    j.update_statepoint({"rk": 1})
+                else:
+                    j.sp.rk = 1
+                if j.id != oracle.job_id(new_sp):
+                    mms.append(Mismatch("schema_raises", f"re-keying {uniq[i]!r} to {new_sp!r} in the set-up gave id {j.id}"))
+                    return {"mismatches": mms, "classes": sorted(cl), "nontrivial": False}
+                signac.Project(d).open_job(copy.deepcopy(uniq[i])).init()
+            except Exception as e:
+                mms.append(Mismatch("schema_raises", f"re-keying {uniq[i]!r} / re-creating it in the set-up raised {type(e).__name__}: {e}"))
+                return {"mismatches": mms, "classes": sorted(cl), "nontrivial": False}
+            uniq.append(new_sp)
+            ids.append(oracle.job_id(new_sp))
+            n += 1
+            nontrivial = True
     subset = case.get("subset")
     removed = sorted({i % n for i in case.get("removed", []) if isinstance(i, int)}) if n else []
     if removed:
@@ -287,7 +317,17 @@ def run_case(case, ctx):
         if not n:
             sub = []
         sub = [i % n for i in sub if isinstance(i, int)] if n else []
-        jobs = [project.open_job(id=ids[i]) for i in sub]
+        if case.get("by_sp"):
+            # handles opened with the caller's own mapping, which the caller goes on using (one template filled in
+            # a loop): what it does to it after open_job() is none of the job's business
+            cl.add("caller_reused_open_job_mapping")
+            jobs = []
+            for i in sub:
+                mine = copy.deepcopy(uniq[i])
+                jobs.append(project.open_job(mine))
+                _scribble(mine)
+        else:
+            jobs = [project.open_job(id=ids[i]) for i in sub]
         cl.add({0: "diff_0", 1: "diff_1"}.get(len(set(sub)), "diff_many"))
         if case.get("scribble"):
             # the caller took job.statepoint() (a copy it may modify) of every job before and changed it
@@ -347,6 +387,9 @@ CONSTRUCTED = [
     {"jobs": [{"l": [1, 2]}, {"l": [1.0, 2]}, {"l": []}], "subset": [0, 1, 4], "subset_kind": "ids", "exclude_const": True, "diffs": [[0, 1], [1, 2]]},
     {"jobs": [], "subset": None, "subset_kind": "ids", "exclude_const": True, "diffs": [[]]},
     {"jobs": [{"a": 0, "b": None}], "subset": None, "subset_kind": "ids", "exclude_const": True, "diffs": [[0]]},
+    {"jobs": [{"a": 1, "b": 1}, {"a": 2, "b": 1}, {"a": 5, "b": 1}], "subset": None, "subset_kind": "ids", "exclude_const": True, "diffs": [[0, 1, 2, 3], [0, 3]], "rekey": 0, "rekey_via": "sp"},
+    {"jobs": [{"a": 1, "n": {"x": 1}}, {"a": 2, "n": {"x": 1}}], "subset": [0, 1, 2], "subset_kind": "jobs", "exclude_const": False, "diffs": [[2, 0]], "rekey": 1, "rekey_via": "update"},
+    {"jobs": [{"a": 1, "n": {"x": 1, "l": [1, 2]}}, {"a": 2, "n": {"x": 2, "l": [1, 2]}}, {"a": 3, "n": {"x": 2, "l": []}}], "subset": None, "subset_kind": "ids", "exclude_const": True, "diffs": [[0, 1, 2], [1, 2]], "by_sp": True},
 ]
 
 
